@@ -1240,7 +1240,26 @@ func (fc *FnCtx) runAts(kind, pattern string, instr ssa.Instruction, args []Val,
 			if instr != nil {
 				pos = instr.Pos()
 			}
-			fc.oblige("at", fmt.Sprintf("%s(%s).%s", at.Anchor.Kind, at.Anchor.Pattern, lbl), fc.evalBool(at.Cl.E, env), at.Cl.Props,
+			detail := fmt.Sprintf("%s(%s).%s", at.Anchor.Kind, at.Anchor.Pattern, lbl)
+			// a `requires` clause that does not bind at this site (it names a local that is not defined here, e.g. at a
+			// new early exit) is skipped at this site only: no obligation, nothing assumed; the other clauses still apply
+			goal, ok := func() (g string, ok bool) {
+				defer func() {
+					if r := recover(); r != nil {
+						if be, isBind := r.(bindError); isBind {
+							fc.skippedAts = append(fc.skippedAts, fmt.Sprintf("%s: at %s: %s (clause skipped at this site)", fc.name, detail, be.msg))
+							return
+						}
+						panic(r)
+					}
+				}()
+				return fc.evalBool(at.Cl.E, env), true
+			}()
+			if !ok {
+				fc.ordinals["at:"+detail]++
+				continue
+			}
+			fc.oblige("at", detail, goal, at.Cl.Props,
 				fmt.Sprintf("at %s(%s): %s", at.Anchor.Kind, at.Anchor.Pattern, at.Cl.Text), pos)
 		case "assume", "ensures":
 			fc.assumeHere(fc.evalBool(at.Cl.E, env))
